@@ -38,6 +38,12 @@ func main() {
 		}
 		start := time.Now()
 		fmt.Println(fn, e.Frames().MayWrite(fn), time.Since(start))
+		if len(os.Args) > 4 {
+			// govc frame <pkg> <key> <effect>: one call chain to a function with that direct effect
+			for _, l := range e.Frames().Why(fn, os.Args[4]) {
+				fmt.Println("   ->", l)
+			}
+		}
 	default:
 		fmt.Fprintln(os.Stderr, "unknown command", os.Args[1])
 		os.Exit(2)
